@@ -4,6 +4,10 @@ import json, os
 ROOT = os.path.dirname(os.path.dirname(os.path.abspath(__file__)))
 props = [json.loads(l) for l in open(os.path.join(ROOT, "properties.jsonl"))]
 CLAIMED = {
+ "C02": dict(
+   text="Coq theorems on the index arithmetic of stacking, for any number of dimensions, any sizes and any dimension order: row-major flatten/unflatten are mutually inverse (mixed radix); stacking along any permutation of the dimensions (sample dimensions first) and unstacking returns at every in-range multi-index the value the input holds there; concatenating per-item feature blocks and splitting by the recorded sizes returns every block (lists/Datasets, any number of items). Correspondence (exact, integer-valued data): the stacking model vs the Preprocessor's 2-D matrix on every enumerated layout; oracle: container type, variable names, dimensions, label sets and values at every label after the round trip, dims of components/scores/reconstructions through EOF. xarray's own primitives are modelled, not verified. Known findings (Datasets with different dimension sets, list items with different auxiliary coordinates, Dataset with a MultiIndex sample dimension) are listed in known_findings.json.",
+   note="Trusted: Coq kernel; xarray stack/unstack/to_stacked_array semantics as modelled (row-major product order, variable-major concatenation) and validated by enumeration at sizes 2-3; duplicate-free coordinates assumed. Reconstruction dimension ORDER through a model is not constrained (values are compared by label).",
+   technique="Coq proof (induction over dimension lists, Permutation) + exact correspondence on enumerated layouts", ref="4/C02"),
  "C04": dict(
    text="Coq theorems (any field with conjugation): for the EOF model transform(X_fit) = scores with the model's own sign convention; for the rotator model, before compute() and after (sorted by any index list), project-divide-rotate-sort-rescale-resign of the training matrix equals the fitted rotated scores (premise: retained singular values non-zero). Rotator step order and formulas are proved equal to the definitions regenerated from eof_rotator.py. Correspondence: rotation model at binary64/complex vs EOFRotator/ComplexEOFRotator (power 1-3). Oracle at the public API on every transform-capable class (EOF, ComplexEOF, SparsePCA, POP, CPCCA/MCA/CCA/RDA + complex, their rotators, multi.CCA): values, dims, sample labels, mode order. SparsePCA/POP/cross/multi are oracle-only (partial).",
    note="Trusted: Coq kernel; translator T3/T5eof/T5rot; SVD and rotation matrix as oracles (residuals checked); SparsePCA, POP, CPCCA-family and multi.CCA transform-vs-scores rest on the API-level oracle, not a theorem.",
